@@ -196,22 +196,26 @@ var lsigners = []lsigner{
 func legacy(x *mon.Ctx) {
 	selfTest(x)
 	lcurves := usableCurves(x)
-	total := x.Scale(60, 900)
+	total := x.Scale(60, 600)
 	for i := 0; i < total; i++ {
 		lc := lcurves[i%len(lcurves)]
 		sg := lsigners[(i/len(lcurves))%len(lsigners)]
 		dk := []string{"rand", "1", "n-2", "2", "rand", "small"}[(i/10)%6]
-		c := x.Begin("legacy i=%d curve=%s signer=%s d=%s", i, lc.name, sg.name, dk)
+		plant := "none"
+		if !sg.msgMode { // the retry conditions can be forced when the digest is ours to choose
+			plant = []string{"none", "r=0", "r+k=n", "s=0"}[(i/len(lcurves)/len(lsigners))%4]
+		}
+		c := x.Begin("legacy i=%d curve=%s signer=%s d=%s plant=%s", i, lc.name, sg.name, dk, plant)
 		if c == nil {
 			continue
 		}
-		c.Class("legacy/%s/%s/d=%s", lc.name, sg.name, dk)
-		legacyCase(c, lc, sg, dk)
+		c.Class("legacy/%s/%s/d=%s/plant=%s", lc.name, sg.name, dk, plant)
+		legacyCase(c, lc, sg, dk, plant)
 		c.End()
 	}
 }
 
-func legacyCase(c *mon.Case, lc lcurve, sg lsigner, dk string) {
+func legacyCase(c *mon.Case, lc lcurve, sg lsigner, dk, plant string) {
 	N := lc.c.Params().N
 	var d *big.Int
 	switch dk {
@@ -254,6 +258,36 @@ func legacyCase(c *mon.Case, lc lcurve, sg lsigner, dk string) {
 	}
 	in := lin{lc: lc, pub: &k.PublicKey, d: d, e: e, hasMsg: true, uid: uid, msg: msg}
 	rd := newScript(c)
+	if plant != "none" {
+		// first block k1 with the digest that makes the standard discard it, then k2
+		olen := (N.BitLen() + 7) / 8
+		k1 := add(c.R.BigBelow(sub(N, one)), one)
+		k2 := add(c.R.BigBelow(sub(N, one)), one)
+		var x1 *big.Int
+		if lc.isSM2 {
+			x1 = ec.BaseMul(k1).X
+		} else {
+			x1, _ = lc.c.ScalarBaseMult(k1.Bytes())
+		}
+		var ei *big.Int
+		switch plant {
+		case "r=0":
+			ei = new(big.Int).Neg(x1)
+		case "r+k=n":
+			ei = new(big.Int).Neg(add(k1, x1))
+		default: // s = 0 <=> k = r d
+			ei = sub(mul(k1, new(big.Int).ModInverse(d, N)), x1)
+		}
+		ei.Mod(ei, N)
+		e = fill(ei, olen)
+		in = lin{lc: lc, pub: &k.PublicKey, d: d, e: e}
+		rd = newScript(c, fill(k1, olen), fill(k2, olen))
+		defer func() {
+			if rd.Consumed() == 2*olen {
+				c.Event("retry_observed/"+plant, 1)
+			}
+		}()
+	}
 	var sig []byte
 	if !c.Call(sg.name+" on "+lc.name, func() { sig, err = sg.run(rd, k, uid, msg, e) }) {
 		return
